@@ -16,8 +16,8 @@ def gen_legacy(rng):
     for i in range(ngroups):
         depth = rng.choice([0, 1, 2, 5])
         path = [rng.choice(['data', 'user', 'sub', 'A', 'misc %d' % i]) + (str(i) if names.count(names[i]) > 1 else '') for _ in range(depth)]
-        rank = rng.choice([1, 2, 3, 4])
-        shape = [rng.choice([1, 2, 3, 4]) for _ in range(rank)]
+        rank = rng.choice([1, 2, 3, 4, 4, 10, 11, 12])
+        shape = [rng.choice([1, 2, 3, 4]) for _ in range(rank)] if rank < 10 else [rng.choice([1, 2]) for _ in range(rank)]
         dims = []
         for ax in range(rank):
             L = shape[ax]
